@@ -1710,7 +1710,8 @@ def true_loc(text, idx):
         else:
             col += 1
     return line, col
-cases = [("(a b)", 0, 5), ("  [1 2]", 2, 7), ("\n\n(x\n y)", 2, 8), ("a\r\n(q)", 3, 6), ("a\r(q)", 2, 5), ("{:a 1}  ", 0, 6), ("sym", 0, 3), ("  #{1}", 2, 6), (";c\n [z]", 4, 7)]
+cases = [("(a b)", 0, 5), ("  [1 2]", 2, 7), ("\n\n(x\n y)", 2, 8), ("a\r\n(q)", 3, 6), ("a\r(q)", 2, 5), ("{:a 1}  ", 0, 6), ("sym", 0, 3), ("  #{1}", 2, 6), (";c\n [z]", 4, 7),
+         ("#:a\n{:b c}", 0, 10), (" #:k\n  {:x 1}", 1, 13), ("#:a{:b 1}", 0, 9), ("\n #{1\n 2}", 2, 9)]
 for text, start, end in cases:
     forms = [f for f in reader.read_str(text) if hasattr(f, "meta") and f.meta is not None]
     form = forms[-1] if forms else None
